@@ -46,6 +46,10 @@ pub struct Violation {
   pub signature: String,
   pub message: String,
   pub detail: Value,
+  /// when the violating execution is better expressed as another case (e.g.
+  /// one member of a sweep): the parameters and tapes that reproduce it
+  #[serde(skip)]
+  pub replay_as: Option<(CaseParams, Tapes)>,
 }
 
 #[derive(Default)]
@@ -82,6 +86,7 @@ impl CaseOutcome {
       signature: signature.into(),
       message: message.into(),
       detail,
+      replay_as: None,
     });
   }
   pub fn merge_counters(&mut self, other: &BTreeMap<String, u64>) {
@@ -437,7 +442,15 @@ pub fn run_check(spec: &CheckSpec, tier: Tier, verif_seed: u64) -> RunSummary {
               continue;
             }
             if local.violations.len() < 4 {
-              local.violations.push((idx, params.clone(), tape.rec.clone(), v));
+              match v.replay_as.clone() {
+                Some((p, t)) => local.violations.push((idx, p, t, v)),
+                None => local.violations.push((
+                  idx,
+                  params.clone(),
+                  tape.rec.clone(),
+                  v,
+                )),
+              }
             }
           }
           if local.violations.iter().any(|v| v.0 == idx) {
